@@ -10,10 +10,14 @@ from lib import common, play, stories
 
 LEVEL = "proof"
 HARNESS_FEATURES = [[], ["stream"]]
-THEOREM_MODULES = ["Proofs.C14", "Proofs.Tables"]
+THEOREM_MODULES = ["Proofs.C14", "Proofs.C14Struct", "Proofs.Tables"]
 REQUIRED_THEOREMS = ["Ink.C14.toDigit16_eq_hexVal", "Ink.C14.readHex4_eq", "Ink.C14.readStringContent_eq_parseStrBody",
                      "Ink.C14.parse_escapeChars", "Ink.C14.stream_escapeChars", "Ink.C14.parse_escapeAscii",
-                     "Ink.C14.stream_escapeAscii", "Ink.C14.both_loaders_read_the_same_text"]
+                     "Ink.C14.stream_escapeAscii", "Ink.C14.both_loaders_read_the_same_text",
+                     # tokenizer above the strings: white space, number grammar and integer values (Ink/StreamLoad.lean)
+                     "Ink.StreamLoad.readSkip_eq_skipWs", "Ink.StreamLoad.peek_eq", "Ink.StreamLoad.isJsonNumber_eq",
+                     "Ink.StreamLoad.isJsonNumber_iff", "Ink.StreamLoad.classifyNumber_int",
+                     "Ink.StreamLoad.floatOfRaw_eq", "Ink.StreamLoad.floatOfInt_eq"]
 from lib.tables_thms import TABLE_THEOREMS  # noqa: E402
 REQUIRED_THEOREMS = REQUIRED_THEOREMS + TABLE_THEOREMS
 RULE = ("a case = one story document (reference corpus, this compiler on the corpus and on generated programs, each "
@@ -69,9 +73,9 @@ def audit(path, features):
     return common.parse_json_lines(r.stdout.split("\n"))
 
 
-def model_audit(path):
+def model_audit(path, mode="audit"):
     try:
-        r = subprocess.run([common.INKMODEL, "audit", path], capture_output=True, text=True, timeout=300)
+        r = subprocess.run([common.INKMODEL, mode, path], capture_output=True, text=True, timeout=300)
     except subprocess.TimeoutExpired:
         return [{"t": "timeout"}]
     return common.parse_json_lines(r.stdout.split("\n"))
@@ -107,6 +111,14 @@ def one_doc(job):
                 dm = [x for x in cm if x not in set(rows)][:2]
                 dr = [x for x in rows if x not in set(cm)][:2]
                 res["corr"] = {"document": shown, "layout": layout, "build": which, "only_model": dm, "only_code": dr}
+        # the MODEL OF THE STREAMING LOADER (Ink/StreamLoad.lean: tokenizer + json_read_stream.rs on the characters)
+        # against the stream-json-parser build
+        sm = canon_rows(model_audit(p, "saudit"))
+        if sm != cb and not res["corr"]:
+            dm = [x for x in sm if x not in set(cb)][:2]
+            dr = [x for x in cb if x not in set(sm)][:2]
+            res["corr"] = {"document": shown, "layout": layout, "build": "stream (model of the streaming loader)",
+                           "only_model": dm, "only_code": dr}
     # play under both builds
     if a and a[0].get("t") not in ("loaderr", "panic", "timeout"):
         rng = random.Random(seed)
